@@ -33,11 +33,13 @@ def worker(k, jobs, out, lock):
                 job = jobs.get_nowait()
             except queue.Empty:
                 break
-            sh(['git', '-C', r, 'checkout', '--', '.'])
+            sh(['git', '-C', r, 'reset', '-q', '--hard', 'HEAD'])
             sh(['git', '-C', r, 'clean', '-fdq'])
             rc, o = sh(['git', '-C', r, 'apply', job['patch']])
             if rc != 0:
                 rc, o = sh(['git', '-C', r, 'apply', '--3way', job['patch']])
+                if rc != 0:
+                    sh(['git', '-C', r, 'reset', '-q', '--hard', 'HEAD'])
             res = {'apply': 'ok' if rc == 0 else 'failed: ' + o[-300:], 'results': {}}
             if rc == 0:
                 for p in job['props']:
